@@ -139,15 +139,65 @@ Record pair_wf (A B : hostg) : Prop := {
   pw_ids : forall n, In n (node_ids A) <-> In n (node_ids B);
   pw_el : forall n x y, label A n = Some x -> label B n = Some y -> a_el x = a_el y }.
 
-(** [tpl] describes the pair (A, B) *)
-Record describes (A B : hostg) (tpl : its) : Prop := {
-  d_wf : wf_rcb tpl = true;
-  d_nodes : forall n a, In (n, a) (gnodes tpl) ->
+(** [tpl] fits the pair (A, B): its tuples and bond orders are those of A and B *)
+Record fits (A B : hostg) (tpl : its) : Prop := {
+  f_wf : wf_rcb tpl = true;
+  f_nodes : forall n a, In (n, a) (gnodes tpl) ->
               exists x y, label A n = Some x /\ label B n = Some y /\ sel (iG a) = sel x /\ sel (iH a) = sel y;
-  d_edges : forall u v x, In (u, v, x) (gedges tpl) ->
-              In u (node_ids tpl) /\ In v (node_ids tpl) /\ eG x = order_in A u v /\ eH x = order_in B u v;
+  f_edges : forall u v x, In (u, v, x) (gedges tpl) ->
+              In u (node_ids tpl) /\ In v (node_ids tpl) /\ eG x = order_in A u v /\ eH x = order_in B u v }.
+(** [tpl] describes the pair (A, B): it fits and contains every bond and every atom on which A and B differ *)
+Record describes (A B : hostg) (tpl : its) : Prop := {
+  d_fits : fits A B tpl;
   d_cover_e : forall u v, order_in A u v <> order_in B u v -> exists x, adj tpl u v = Some x;
   d_cover_n : forall n x y, label A n = Some x -> label B n = Some y -> sel x <> sel y -> In n (node_ids tpl) }.
+Definition d_wf A B tpl (D : describes A B tpl) := f_wf _ _ _ (d_fits _ _ _ D).
+Definition d_nodes A B tpl (D : describes A B tpl) := f_nodes _ _ _ (d_fits _ _ _ D).
+Definition d_edges A B tpl (D : describes A B tpl) := f_edges _ _ _ (d_fits _ _ _ D).
+
+Section Match.
+  Variables (A B : hostg) (tpl : its).
+  Hypothesis F : fits A B tpl.
+  Let m := id_map (node_ids tpl).
+
+  Lemma fits_nodupb : nodupb (node_ids tpl) = true.
+  Proof. pose proof (f_wf _ _ _ F) as Hwr. unfold wf_rcb in Hwr. apply andb_prop in Hwr. destruct Hwr as [H _]. apply andb_prop in H. destruct H as [H _]. exact H. Qed.
+
+  (** the identity is a valid match of the template's reactant side on A *)
+  Lemma fits_match_rc : match_rcb A tpl m = true.
+  Proof.
+    unfold match_rcb, m. rewrite id_map_fst, id_map_snd, fits_nodupb. simpl.
+    apply andb_true_intro; split; [apply andb_true_intro; split|].
+    - unfold id_map, node_ids. rewrite !map_length. apply Nat.eqb_refl.
+    - apply forallb_forall. intros [n a] I. unfold rc_node_okb. simpl.
+      assert (In n (node_ids tpl)) by (unfold node_ids; change n with (fst (n, a)); apply in_map; exact I).
+      rewrite (mget_id _ n H). destruct (f_nodes _ _ _ F n a I) as (x & y & Ex & Ey & Sx & Sy). rewrite Ex.
+      unfold sel in Sx. inversion Sx. rewrite N.eqb_refl, Z.eqb_refl. simpl. apply Z.leb_le. lia.
+    - apply forallb_forall. intros [[u v] x] I. unfold rc_edge_okb.
+      destruct (f_edges _ _ _ F u v x I) as (Iu & Iv & Eg & Eh). rewrite (mget_id _ u Iu), (mget_id _ v Iv).
+      destruct (0 <? eG x) eqn:E; [|reflexivity]. apply Z.ltb_lt in E.
+      rewrite Eg in E. unfold order_in in E, Eg. destruct (adj A u v) as [o|]; [|lia]. apply Z.eqb_eq. congruence.
+  Qed.
+
+  (** ... and of the pattern the matcher sees (the decomposed reactant side) *)
+  Lemma fits_match_pattern : match_okb A (dec_side iG eG tpl) m = true.
+  Proof.
+    unfold match_okb, m. rewrite id_map_fst, id_map_snd, fits_nodupb. simpl.
+    apply andb_true_intro; split; [apply andb_true_intro; split|].
+    - unfold id_map, node_ids, dec_side; simpl. rewrite !map_length. apply Nat.eqb_refl.
+    - apply forallb_forall. intros [n a] I. unfold node_okb. simpl.
+      change (gnodes (dec_side iG eG tpl)) with (map (fun p : N * inode => (fst p, dec_node (iG (snd p)))) (gnodes tpl)) in I.
+      apply in_map_iff in I. destruct I as ([k pn] & E & I). simpl in E. inversion E; subst.
+      assert (In n (node_ids tpl)) by (unfold node_ids; change n with (fst (n, pn)); apply in_map; exact I).
+      rewrite (mget_id _ n H). destruct (f_nodes _ _ _ F n pn I) as (x & y & Ex & Ey & Sx & Sy). rewrite Ex.
+      unfold sel in Sx. inversion Sx. simpl. rewrite N.eqb_refl, Z.eqb_refl. simpl. apply Z.leb_le. lia.
+    - apply forallb_forall. intros [[u v] o] I. unfold edge_okb.
+      unfold dec_side in I; simpl in I. apply in_flat_map in I. destruct I as ([[p q] x] & I & I').
+      destruct (0 <? eG x) eqn:E; [|destruct I']. destruct I' as [I'|[]]. inversion I'; subst.
+      destruct (f_edges _ _ _ F u v x I) as (Iu & Iv & Eg & Eh). rewrite (mget_id _ u Iu), (mget_id _ v Iv).
+      apply Z.ltb_lt in E. rewrite Eg in E. unfold order_in in E, Eg. destruct (adj A u v) as [o|]; [|lia]. apply Z.eqb_eq. congruence.
+  Qed.
+End Match.
 
 Section Regen.
   Variables (A B : hostg) (tpl : its).
@@ -159,23 +209,9 @@ Section Regen.
   Let HB := pw_B _ _ PW.
 
   Lemma tpl_nodupb : nodupb (node_ids tpl) = true.
-  Proof. unfold wf_rcb in Hwr. apply andb_prop in Hwr. destruct Hwr as [H _]. apply andb_prop in H. destruct H as [H _]. exact H. Qed.
-
-  (** the identity is a valid match of the template's reactant side on A *)
+  Proof. exact (fits_nodupb A B tpl (d_fits _ _ _ D)). Qed.
   Lemma identity_match_rc : match_rcb A tpl m = true.
-  Proof.
-    unfold match_rcb, m. rewrite id_map_fst, id_map_snd, tpl_nodupb. simpl.
-    apply andb_true_intro; split; [apply andb_true_intro; split|].
-    - unfold id_map, node_ids. rewrite !map_length. apply Nat.eqb_refl.
-    - apply forallb_forall. intros [n a] I. unfold rc_node_okb. simpl.
-      assert (In n (node_ids tpl)) by (unfold node_ids; change n with (fst (n, a)); apply in_map; exact I).
-      rewrite (mget_id _ n H). destruct (d_nodes _ _ _ D n a I) as (x & y & Ex & Ey & Sx & Sy). rewrite Ex.
-      unfold sel in Sx. inversion Sx. rewrite N.eqb_refl, Z.eqb_refl. simpl. apply Z.leb_le. lia.
-    - apply forallb_forall. intros [[u v] x] I. unfold rc_edge_okb.
-      destruct (d_edges _ _ _ D u v x I) as (Iu & Iv & Eg & Eh). rewrite (mget_id _ u Iu), (mget_id _ v Iv).
-      destruct (0 <? eG x) eqn:E; [|reflexivity]. apply Z.ltb_lt in E.
-      rewrite Eg in E. unfold order_in in E, Eg. destruct (adj A u v) as [o|]; [|lia]. apply Z.eqb_eq. congruence.
-  Qed.
+  Proof. exact (fits_match_rc A B tpl (d_fits _ _ _ D)). Qed.
 
   (** gluing along it produces an ITS *)
   Lemma identity_glue_some : exists T, glue A tpl m = Some T.
